@@ -188,7 +188,30 @@ def modeOf (s : String) : Mode := if s = "det" then .det else if s = "rand" then
 
 def drawsOf (s : String) : List Bool := if s = "" ∨ s = "-" then [] else boolsOf s
 
+/-- `0101/11` → one list of draws per call of `_random_checker` (repaired `is_lc_equivalent`); an empty list is written `-` -/
+def drawListsOf (s : String) : List (List Bool) :=
+  if s = "" ∨ s = "-" then [] else (splitChar '/' s).map drawsOf
+
+def showPart (o : EqOut) : String := s!"{o.rank}:{o.dim}:{o.path}:{o.trials}"
+
+/-- `repaired=1`: the model of the repaired `is_lc_equivalent` (component by component); `dim` is then the largest
+    dimension of a solution space among the examined components and `trials` / `draws` are summed over them -/
+def cmdEquivR (a : Args) : String :=
+  let g := graphOf a
+  let h := graphOf a "b"
+  match isLcEquivalentR g h (modeOf (get a "mode")) (drawListsOf (get a "draws")) with
+  | .error e => errStr e
+  | .ok o =>
+    let dim := o.parts.foldl (fun acc p => max acc p.dim) 0
+    let trials := o.parts.foldl (fun acc p => acc + p.trials) 0
+    let used := o.parts.foldl (fun acc p => if p.path = "random" then acc + p.trials * p.dim else acc) 0
+    let tail := s!"dim={dim} path={o.path} trials={trials} used={used} comps={showLists o.comps} parts={if o.parts.isEmpty then "-" else String.intercalate "|" (o.parts.map showPart)}"
+    match o.sol with
+    | some s => s!"ok yes q={showBools s} {tail}"
+    | none => s!"ok no {tail}"
+
 def cmdEquiv (a : Args) : String :=
+  if get a "repaired" = "1" then cmdEquivR a else
   let g := graphOf a
   let h := graphOf a "b"
   match isLcEquivalent g h (modeOf (get a "mode")) (drawsOf (get a "draws")) with
@@ -197,6 +220,11 @@ def cmdEquiv (a : Args) : String :=
     match o.sol with
     | some s => s!"ok yes q={showBools s} rank={o.rank} dim={o.dim} path={o.path} trials={o.trials}"
     | none => s!"ok no rank={o.rank} dim={o.dim} path={o.path} trials={o.trials}"
+
+/-- `_connected_components(adj)` -/
+def cmdComponents (a : Args) : String :=
+  let g := graphOf a
+  s!"ok comps={showLists (connectedComponents g.r g.f)}"
 
 /-- intermediate quantities of `is_lc_equivalent` for the function-by-function correspondence -/
 def cmdSystem (a : Args) : String :=
@@ -237,7 +265,9 @@ def cmdLcSeq (a : Args) : String :=
 def cmdFind (a : Args) : String :=
   let g := graphOf a
   let h := graphOf a "b"
-  match findLcOperations (getNat a "fuel") g h (modeOf (get a "mode")) (drawsOf (get a "draws")) (get a "legacy" = "1") with
+  let r := if get a "repaired" = "1" then findLcOperationsR (getNat a "fuel") g h (modeOf (get a "mode")) (drawListsOf (get a "draws"))
+    else findLcOperations (getNat a "fuel") g h (modeOf (get a "mode")) (drawsOf (get a "draws")) (get a "legacy" = "1")
+  match r with
   | .ok l => s!"ok seq={showNats "," l}"
   | .error e => errStr e
 
@@ -253,14 +283,14 @@ def showGates (l : List (String × Nat)) : String :=
 def cmdCheck (a : Args) : String :=
   let g := graphOf a
   let h := graphOf a "b"
-  match lcCheck g h (get a "validate" ≠ "0") with
+  match (if get a "repaired" = "1" then lcCheckR g h (get a "validate" ≠ "0") else lcCheck g h (get a "validate" ≠ "0")) with
   | .ok (yes, gates) => s!"ok yes={b01 yes} gates={showGates gates}"
   | .error e => errStr e
 
 def cmdConverter (a : Args) : String :=
   let g := graphOf a
   let h := graphOf a "b"
-  match converterGateList g h with
+  match (if get a "repaired" = "1" then converterGateListR g h else converterGateList g h) with
   | .ok (gates, ok) => s!"ok gates={showGates gates} phaseok={b01 ok}"
   | .error e => errStr e
 
@@ -290,6 +320,7 @@ def dispatch (cmd : String) (a : Args) : Option String :=
   | "orb.dfs" => some (cmdOrbDfs a)
   | "orb.walk" => some (cmdWalk a)
   | "lc.equiv" => some (cmdEquiv a)
+  | "lc.components" => some (cmdComponents a)
   | "lc.system" => some (cmdSystem a)
   | "lc.ops" => some (cmdOps a)
   | "lc.valid" => some (cmdValid a)
